@@ -277,10 +277,20 @@ pub fn run(a: &Args) -> i32 {
     }
     // ---- one long-lived Game asked for its move at every ply of every quiet king path ----
     let mut path_asks = 0u64;
-    {
-        let root = Pos::from_fen("7k/8/8/8/8/8/8/K7 w - - 0 1").unwrap();
-        let allowed: Vec<Sq> = ["a1", "b1", "b2", "a2", "h8", "g8", "g7", "h7"].iter().map(|x| parse_sq(x).unwrap()).collect();
-        let len = if thorough { 6 } else { 5 };
+    let mut asks_after_a_recurrence = 0u64;
+    // second configuration: a caged king (at h1 its ONLY legal move is Kg1; all pawns are blocked)
+    // two pawns up, so that along the paths the engine is asked in positions where its single
+    // legal move leads to a position that has already occurred twice
+    for (fen, squares, len, step) in [
+        ("7k/8/8/8/8/8/8/K7 w - - 0 1", vec!["a1", "b1", "b2", "a2", "h8", "g8", "g7", "h7"], if thorough { 6 } else { 5 }, if thorough { 1 } else { 2 }),
+        ("k7/8/8/p7/P7/P6p/P6P/7K w - - 0 1", vec!["h1", "g1", "f1", "a8", "b8"], if thorough { 10 } else { 8 }, 1),
+    ] {
+        let root = Pos::from_fen(fen).unwrap();
+        if !root.is_consistent() {
+            eprintln!("MACHINERY-ERROR: inconsistent C15 path seed");
+            return 2;
+        }
+        let allowed: Vec<Sq> = squares.iter().map(|x| parse_sq(x).unwrap()).collect();
         let mut paths: Vec<Vec<Move>> = vec![vec![]];
         for _ in 0..len {
             let mut next = Vec::new();
@@ -298,11 +308,20 @@ pub fn run(a: &Args) -> i32 {
             paths = next;
         }
         for d in [1u8, 2] {
-            for h in paths.iter().step_by(if thorough { 1 } else { 2 }) {
+            for h in paths.iter().step_by(step) {
                 let mut g = Game::from_board(build_board(&root), d);
                 let mut p = root.clone();
                 let mut played: Vec<(Sq, Sq)> = Vec::new();
+                let mut occurrences: std::collections::HashMap<CKey, u32> = std::collections::HashMap::new();
+                occurrences.insert(canon(&p), 1);
                 for k in 0..=h.len() {
+                    // a position that has occurred three times ends the game: nothing is asked there
+                    if occurrences.get(&canon(&p)).copied().unwrap_or(0) >= 3 {
+                        break;
+                    }
+                    if occurrences.values().any(|c| *c >= 2) {
+                        asks_after_a_recurrence += 1;
+                    }
                     path_asks += 1;
                     let ql = p.legal_moves();
                     match ask(&mut g) {
@@ -324,12 +343,14 @@ pub fn run(a: &Args) -> i32 {
                     }
                     g.board_mut().toggle_turn();
                     p = p.make(m);
+                    *occurrences.entry(canon(&p)).or_insert(0) += 1;
                     played.push((m.from, m.to));
                 }
             }
         }
     }
     rep.add("asks_along_long_lived_game_paths", path_asks);
+    rep.add("asks_in_games_where_a_position_has_recurred", asks_after_a_recurrence);
     rep.add("supplied_position_asks", sup_asks);
     rep.add("supplied_positions", supplied.len() as u64);
     rep.add("answers_taken_from_the_book", book_answers);
